@@ -53,7 +53,7 @@ def make_case(ns, i, rng, tier):
     profile = {}
     k = rng.random()
     if k < 0.25:
-        profile = {"n_consts": (4, 16), "symbolic": 0.9, "pct_reg": 0.3, "w_data": 7}
+        profile = {"n_consts": (4, 16), "symbolic": 0.9, "pct_reg": 0.3, "w_data": 7, "sumprod": 0.4}
     elif k < 0.4:
         profile = {"chain": 0.9, "n_stmts": (4, 20)}
     elif k < 0.5:
